@@ -206,7 +206,47 @@ def odd_keyword_stream(sigs):
     return groups
 
 
-RECEIVERS = ["falsy_bool", "len0", "bool_raises", "eq_all", "emptylist", "emptydict", "zero", "slots", "classmethod"]
+def hostile_stream(sigs):
+    """argument values whose __repr__/__str__ raise (-15) or are counted (-16), on every call shape of small
+    signatures, plain and as methods, without an ignore list and ignoring a parameter that holds such a value;
+    and the ways a caller can hand over the positional arguments: fresh list, range, and ONE list object reused
+    for consecutive calls (same receiver twice; for `share` families: several receivers)"""
+    groups = []
+    for meth in (None, "pk", "po"):
+        for sig in sigs:
+            if len(sig) > (1 if meth else 2):
+                continue
+            named = [p[1] for p in sig if p[0] in (PK, KO)]
+            calls = []
+            for ci, (pos, kw, _) in enumerate(calls_for(sig, meth)):
+                for base in (-15, -16):
+                    vals = [base if (ci + j) % 3 else (-31 - base) for j in range(len(pos) + len(kw))]  # mix -15/-16
+                    c = [vals[:len(pos)], [[k, v] for (k, _), v in zip(kw, vals[len(pos):])]]
+                    calls.append(c + [None])
+                    if named:
+                        calls.append(c + [[named[0]]])
+                    if any(p[0] == VP for p in sig):
+                        calls.append(c + [["*"]])
+            groups.append({"sig": sig, "meth": meth, "calls": calls, "stream": "hostile-repr"})
+            for mode in ("list", "range", "shared_list"):
+                calls = []
+                for pos, kw, _ in calls_for(sig, meth):
+                    if any(k in ("z", "a") for k, _ in kw):
+                        continue
+                    calls += [[pos, kw, None]] * (2 if mode == "shared_list" else 1)
+                groups.append({"sig": sig, "meth": meth, "args_as": mode, "calls": calls, "stream": "args-sequences"})
+            if meth == "pk" and any(p[0] in (PO, PK, KO) for p in sig):
+                fam = [sig, with_defaults(sig, "all", 400), with_defaults(sig, "shift", 500)]
+                calls = []
+                for pos, kw, _ in calls_for(sig, meth):
+                    if not any(k in ("z", "a") for k, _ in kw):
+                        calls += [[pos, kw, None, 0], [pos, kw, None, 1], [pos, kw, None, 2], [pos, kw, None, 0]]
+                groups.append({"sig": sig, "meth": meth, "args_as": "shared_list", "family": {"kind": "share", "sigs": fam},
+                               "calls": calls, "stream": "args-sequences"})
+    return groups
+
+
+RECEIVERS = ["repr_raises", "repr_counts", "falsy_bool", "len0", "bool_raises", "eq_all", "emptylist", "emptydict", "zero", "slots", "classmethod"]
 
 
 def receiver_stream(sigs):
@@ -340,11 +380,18 @@ def oracle(sig, meth, pos, kw, ign, r):
                 "ignore list %s names a missing/duplicate key, expected ValueError, got %s" % (ign, r["fa"])
         exp = {k: v for k, v in exp.items() if k not in ign}
     if r["fa"].get("ok") == exp:
+        # the result is right; two more things a caller can observe on a valid call
+        if r["fa"].get("args_modified"):
+            return "filter_args modified the caller's sequence of positional arguments"
+        if r["fa"].get("repr_calls"):
+            return "filter_args called repr()/str() of an argument or of the receiver %d times on a valid call" % \
+                r["fa"]["repr_calls"]
         return None
     txt = "filter_args gives %s, Python binds %s" % (json.dumps(r["fa"].get("ok", r["fa"])), json.dumps(exp))
     if any(v < 0 for v in list(pos) + [v for _, v in kw]) or any((p[2] or 0) < 0 for p in sig):
         txt += ("  (value codes: -1 None, -2 False, -3 '', -4 (), -10 object equal to everything, -11 object equal "
-                "to nothing, -12 comparisons raise, -13 comparisons have no truth value, -14 Parameter.empty)")
+                "to nothing, -12 comparisons raise, -13 comparisons have no truth value, -14 Parameter.empty, "
+                "-15 repr/str raise, -16 repr/str counted)")
     return txt
 
 
@@ -497,9 +544,15 @@ def shard_worker(job):
             if g.get("receiver"):
                 co["receiver"] = g["receiver"]
             r = dict(r, src=case_src(r, call))
-            if g.get("family"):
+            if g.get("args_as"):
+                co["args_as"] = g["args_as"]
+            if g.get("family") or g.get("args_as") == "shared_list":
                 # the outcome may depend on what the interpreter canonicalised before: keep the history
-                co["group"] = {"meth": meth, "family": g["family"], "calls": g["calls"][max(0, ci - 11):ci + 1]}
+                co["group"] = {"meth": meth, "calls": g["calls"][max(0, ci - 11):ci + 1]}
+                for k_ in ("family", "args_as", "receiver"):
+                    if g.get(k_):
+                        co["group"][k_] = g[k_]
+            if g.get("family"):
                 count("family:" + g["family"]["kind"])
             if g.get("stream"):
                 count("stream:" + g["stream"])
@@ -527,7 +580,7 @@ def shard_worker(job):
                     S["insp_bad"].append({"case": co, "src": r["src"], "inspect": rr["insp"], "real_call": rr["real"]})
             # (b) model vs implementation
             mf = model_fa(m)
-            fa = {k: v for k, v in rr["fa"].items() if k != "order"}
+            fa = {k: v for k, v in rr["fa"].items() if k in ("ok", "raise")}
             if mf != fa:
                 if rr["real"] is None:
                     # Python rejects this call: outside the property; reported, not a violation
@@ -757,8 +810,9 @@ def run_case_on_impl(c):
         r = run_impl_groups([g])[0]
         return case_src(r, g["calls"][-1]), r["res"][-1]
     g = {"sig": c["sig"], "meth": c["meth"], "calls": [[c["pos"], c["kw"], c["ign"]]]}
-    if c.get("receiver"):
-        g["receiver"] = c["receiver"]
+    for k_ in ("receiver", "args_as"):
+        if c.get(k_):
+            g[k_] = c[k_]
     r = run_impl_groups([g])[0]
     return r["src"], r["res"][0]
 
@@ -857,6 +911,7 @@ def run(ctx):
     groups += wraps_families(ctx.rng, small)
     groups += receiver_stream(small)
     groups += odd_keyword_stream(small)
+    groups += hostile_stream(small)
     n_streams = sum(len(g["calls"]) for g in groups) - n_before
     # partial objects: filter_args does not look at the signature at all
     pgroups = [{"sig": sig, "meth": None, "partial": True, "calls": list(calls_for(sig, None))[:40]}
@@ -993,7 +1048,11 @@ def run(ctx):
                 "receivers with non-standard truthiness/equality (__bool__ False, __len__ 0, __bool__ raising, __eq__ always "
                 "True, empty list/dict subclass, int subclass 0), to an instance of a __slots__ class and to the class "
                 "(bound classmethod), every call shape without and with ignore=[self]; (odd-keyword-names) functions with "
-                "**kwargs: surplus keywords named '*', '**', '', ' ', ' b', '0' on every call shape. distinct_nontrivial = "
+                "**kwargs: surplus keywords named '*', '**', '', ' ', ' b', '0' on every call shape; (hostile-repr) argument values and receivers whose __repr__/__str__ raise or "
+                "are counted, every call shape, with and without ignoring them: the result must be Python's binding and "
+                "repr/str must not be called on a valid call; (args-sequences) positional arguments handed over as a fresh "
+                "list, a range, and ONE list object reused for consecutive calls and for several receivers: same result "
+                "as for a tuple and the caller's list unchanged. distinct_nontrivial = "
                 "calls Python accepts that lie in the fragment of C07_agree_partial (all enumerated cases are "
                 "distinct by construction)" % (maxn, len(sigs), "all" if with_ignore >= 1 else "35% of the",
                                                n_rand_sigs, n_opaque),
